@@ -624,6 +624,21 @@ def wrong_atomic(sub, rng, want_unsigned_slot=False):
     return rng.choice(cands)
 
 
+def surplus_is_wrong(sub):
+    """a constructed scalar type behind whose value an extra application-tagged value cannot belong to it: a Choice, or a
+    Sequence whose last element is required and atomic (an optional or Any tail could legitimately take it in)"""
+    try:
+        if issubclass(sub, Choice):
+            return True
+        if issubclass(sub, Sequence) and sub.sequenceElements:
+            last = sub.sequenceElements[-1]
+            return (not last.optional) and isinstance(last.klass, type) and issubclass(last.klass, Atomic) \
+                and not issubclass(last.klass, (Any, AnyAtomic))
+    except Exception:
+        pass
+    return False
+
+
 class Gen:
     """generator of operations for one device content (objects o1 [under test] and o2 [bystander] of one class)"""
 
@@ -712,6 +727,9 @@ class Gen:
                     e, t = elem()
                     e2, t2 = elem()
                     return GV([e, e2], t)                       # too many components
+                if how < 0.85 and w is not None and not slot0 and surplus_is_wrong(sub):
+                    e, t = elem()
+                    return GV([e, w], t)                        # a well-formed value of the type, then a surplus component
                 if how < 0.9 and is_atomicish(sub):
                     return GV([], "none")                       # no component at all
                 return GV([Null()], "null")
